@@ -180,12 +180,14 @@ def charset(c: int, pos: int) -> str:
 
 def reread2(i: int, j: int, gap: int, two_lines: bool) -> str:
     """
-    pre: 0 <= i < 6 and 0 <= j < 6 and 0 <= gap <= 3
+    pre: 0 <= i < 4 and 0 <= j < 4 and 0 <= gap <= 7
     post: _ == ""
     """
     t1 = _word(i) + " one"
     t2 = _word(j) + " two"
-    g = (3000000, 1600000, 1000000, 700000)[0] if gap == 0 else (1600000 if gap == 1 else (1000000 if gap == 2 else 700000))
+    # gaps down to 0: the first cue may end inside the second one's loading time (its erase then rides on the next line)
+    g = 3000000 if gap == 0 else (1600000 if gap == 1 else (1000000 if gap == 2 else (700000 if gap == 3 else (
+        400000 if gap == 4 else (200000 if gap == 5 else (100000 if gap == 6 else 0))))))
     n1 = [CaptionNode.create_text(t1)] + ([CaptionNode.create_break(), CaptionNode.create_text("line two")] if two_lines else [])
     cs = CaptionSet({"en-US": CaptionList([Caption(20000000, 21500000, n1), Caption(21500000 + g, 23000000 + g, [CaptionNode.create_text(t2)])])})
     out = SCCWriter().write(cs)
